@@ -1193,6 +1193,8 @@ def getattr_value(I_, obj, name, st, ctx, k, node=None):
   if type(obj).__name__ == "FrameView":
     if name in obj.extra:
       return k(st, obj.extra[name])
+    if name.startswith("g_") and name[2:] in st.ghost:
+      return k(st, st.ghost[name[2:]])
     fr = st.frames[obj.fid]
     if name in fr and fr[name] is not _ABSENT:
       return k(st, fr[name])
@@ -1540,17 +1542,30 @@ def getitem(I_, obj, idx, st, ctx, k, node=None):
 
 
 def _union_of(I_, alts, st):
-  """alts: [(guard, value)] -> merged value"""
+  """alts: [(guard, value)] -> a single value: ite for scalars, else a guarded union"""
   feas = [(g, v) for g, v in alts if st.feasible(g)]
   if not feas:
     raise Unsupported("empty union")
-  if len(feas) == 1:
-    return feas[0][1]
-  res = feas[-1][1]
-  for g, v in reversed(feas[:-1]):
-    m = I_.merge_values(g, v, res, st, st)
-    res = m
-  return res
+  # coalesce identical alternatives
+  out = []
+  for g, v in feas:
+    for j, (g0, v0) in enumerate(out):
+      same = (v0 is v) or (isinstance(v, Ref) and isinstance(v0, Ref) and v == v0) \
+        or (isinstance(v, BoundMethod) and isinstance(v0, BoundMethod) and v.func is v0.func and v.self is v0.self) \
+        or (type(v) is type(v0) and isinstance(v, (int, bool, str, bytes, type(None))) and v == v0)
+      if same:
+        out[j] = (z3.Or(g0, g), v0)
+        break
+    else:
+      out.append((g, v))
+  if len(out) == 1:
+    return out[0][1]
+  if all(is_intlike(v) and not isinstance(v, bool) and not is_symbool(v) for _, v in out):
+    res = zint(out[-1][1])
+    for g, v in reversed(out[:-1]):
+      res = z3.If(g, zint(v), res)
+    return concretize(res)
+  return Union(out)
 
 
 def dict_sym_lookup(I_, ref, key, st, ctx, k, node):
